@@ -3,7 +3,11 @@ package c10
 import (
 	"bytes"
 	"encoding/hex"
+	"encoding/json"
 	"fmt"
+	"os"
+	"os/exec"
+	"path/filepath"
 
 	"github.com/ipld/go-ipld-prime/codec/cbor"
 	"github.com/ipld/go-ipld-prime/codec/dagcbor"
@@ -63,7 +67,28 @@ func CheckTypedDecode(eng typed.Engine, s *rs.Schema, c TypedDecCase) []core.Fin
 }
 
 func typedTargets(r *core.Run) {
-	eng := typed.NewBindEngine()
+	TypedTargets(r, typed.NewBindEngine())
+	// generated builders: the same inputs, in the binary that links the packages generated from the
+	// working tree (a worker process; its counters and findings are merged into this run)
+	bin := filepath.Join(core.VerifDir, ".work", "bin", "mctyped")
+	cmd := exec.Command(bin, "C10-generated-worker", r.Tier)
+	var out, errb bytes.Buffer
+	cmd.Stdout, cmd.Stderr = &out, &errb
+	if err := cmd.Run(); err != nil {
+		fmt.Fprintf(os.Stderr, "CHECK-BROKEN: generated-code worker of C10 failed: %v: %s\n", err, errb.String())
+		os.Exit(2)
+	}
+	var p core.Partial
+	if err := json.Unmarshal(out.Bytes(), &p); err != nil {
+		fmt.Fprintf(os.Stderr, "CHECK-BROKEN: generated-code worker of C10: unreadable result: %v\n", err)
+		os.Exit(2)
+	}
+	r.ImportPartial(p, "-generated")
+	r.Set("typed_targets_generated", map[string]any{"worker": "mctyped C10-generated-worker", "decodes": p.Transitions})
+}
+
+// TypedTargets runs the typed decode targets of one engine.
+func TypedTargets(r *core.Run, eng typed.Engine) {
 	type job struct {
 		s *rs.Schema
 		t string
@@ -125,14 +150,16 @@ func typedTargets(r *core.Run) {
 		r.Merge(&lc)
 		r.NontrivialN(lc.Evals)
 	})
-	r.Outcome("typed-targets")
-	r.Set("typed_targets", map[string]any{"engine": "bindnode (generated builders: C09/C13's dag-cbor route)", "root_types": len(jobs), "inputs": "C09's input trees (conforming + every local mutation) as dag-cbor and dag-json, plus every proper prefix of the conforming encodings", "decoders": []string{"dag-cbor", "cbor", "dag-json", "json"}, "builders": []string{"type-level", "representation-level"}})
+	r.Outcome("typed-targets:" + eng.Name())
+	r.Set("typed_targets_"+eng.Name(), map[string]any{"engine": eng.Name(), "root_types": len(jobs), "inputs": "C09's input trees (conforming + every local mutation) as dag-cbor and dag-json, plus every proper prefix of the conforming encodings", "decoders": []string{"dag-cbor", "cbor", "dag-json", "json"}, "builders": []string{"type-level", "representation-level"}})
 }
 
-func replayTyped(r *core.Run, c TypedDecCase) {
+func replayTyped(r *core.Run, c TypedDecCase) { ReplayTyped(r, typed.NewBindEngine(), c) }
+
+func ReplayTyped(r *core.Run, eng typed.Engine, c TypedDecCase) {
 	for _, s := range rs.Families(false) {
 		if s.Name == c.Schema {
-			r.Report("decode-typed", c, CheckTypedDecode(typed.NewBindEngine(), s, c))
+			r.Report("decode-typed", c, CheckTypedDecode(eng, s, c))
 		}
 	}
 }
